@@ -397,8 +397,9 @@ func (d *Descriptor) readAsJSON(out Outputter, data []byte) (n int, err error) {
 
 func (d *Descriptor) readJSONObjectKV(out Outputter, data []byte) (n int, err error) {
 	var (
-		jType  jsonType
-		offset int
+		jType     jsonType
+		offset    int
+		valueSeen bool
 	)
 
 	for offset < len(data) {
@@ -431,6 +432,7 @@ func (d *Descriptor) readJSONObjectKV(out Outputter, data []byte) (n int, err er
 			jType = jsonType(v)
 			offset += n
 		case 3:
+			valueSeen = true
 			switch jType {
 			case jsonTypeString:
 				l, n := plenccore.ReadVarUint(data[offset:])
@@ -509,6 +511,11 @@ func (d *Descriptor) readJSONObjectKV(out Outputter, data []byte) (n int, err er
 		default:
 			return 0, fmt.Errorf("unexpected json field index %d", index)
 		}
+	}
+
+	if !valueSeen {
+		// A nil value has a type but no value field
+		out.Raw("null")
 	}
 
 	return offset, nil
